@@ -80,10 +80,9 @@ def run(chk):
         ghost_checked = bool(re.search(r"ghosts_attrs.*child_path|ghost_data.*check_child", src)) or any("ghost" in render(c_).lower() and "check_child" in render(c_) for f_ in repo.fns(VALIDATE) for c_ in calls(f_.body, "check_child_errors") if "ghost" in render(f_.body).lower() and f_.name != "validate_fields")
         chk.expect("R4", "GhostData.child_path", ghost_checked, VALIDATE, fv.line,
                    "child paths written in struct-level #[ghosts(path@field: ..)] reach render_child_fragment's child_parents lookups but are never validated (unwrap on None)", found="no validation of ghost child paths")
-        fc = repo.fn(VALIDATE, "check_child_errors")
-        it = [render(n["iter"]).replace(" ", "") for n in walk(fc.body) if n["k"] == "For"]
-        chk.expect("R4", "all-prefixes", it == ["child_attr.child_path.child_path.iter().enumerate()"] and "get_child_path_str(Some(idx))" in render(fc.body).replace(" ", ""), VALIDATE, fc.line,
-                   "every prefix of the path must be checked", found=it)
+        from .c15 import all_prefixes_verdict
+        ok_, bad_, it = all_prefixes_verdict(repo)
+        chk.shape("R4", "all-prefixes", ok_, bad_, VALIDATE, repo.fn(VALIDATE, "check_child_errors").line, what="every prefix of the path must be checked", found=it)
         into_def = re.search(r"letinto_type_paths=data_type_attrs_by_kind\.iter\(\)\.filter_map\(\|\(x,kind\)\|\(\(!kind\.is_from\(\)&&!kind\.is_into_existing\(\)\)\)?\.then_some\(&x\.ty\)\)", src) or \
             "(!kind.is_from()&&!kind.is_into_existing()).then_some(&x.ty)" in src
         chk.expect("R4", "into-counterparts", bool(into_def), VALIDATE, fv.line, "the set of counterparts whose child paths are checked must be exactly the Into (not into_existing, not From) ones")
